@@ -109,6 +109,52 @@ func HarnessProxy() {
 	verif.Reach("proxy-done")
 }
 
+// HarnessProxyShared: the usual downstream arrangement — one list of all
+// permissions in privilege order, and the default set, the caller's set and the
+// list of valid permissions are prefixes of that one list (they share its backing
+// array). The effective set is what those slices held when they were handed over.
+func HarnessProxyShared() {
+	orders := [][]auth.Permission{
+		{"read", "write", "sign", "admin"},
+		{"admin", "read", "sign", "write"},
+		{"write", "sign", "read", "admin"},
+	}
+	all := orders[verif.Choice("order", len(orders))]
+	pristine := append([]auth.Permission(nil), all...)
+	nDef := verif.Choice("def_prefix", len(all)+1)
+	defaults := all[:nDef]
+	attached := verif.Bool("attached")
+	ctx := context.Background()
+	eff := pristine[:nDef]
+	if attached {
+		nCaller := verif.Choice("caller_prefix", len(all)+1)
+		ctx = auth.WithPerm(ctx, all[:nCaller])
+		eff = pristine[:nCaller]
+	}
+	im := &impl{}
+	var px proxyRead
+	auth.PermissionedProxy(all, defaults, im, &px)
+
+	arg := verif.Int("arg")
+	switch verif.Choice("method", 3) {
+	case 0:
+		err := px.Do(ctx, arg)
+		want := contains(eff, "read")
+		verif.Assert((err == nil) == want, "do-allowed-iff-perm")
+		verif.Assert((im.nDo == 1) == want, "do-runs-iff-perm")
+	case 1:
+		_, err := px.Get(ctx, arg)
+		want := contains(eff, "write")
+		verif.Assert((err == nil) == want, "get-allowed-iff-perm")
+		verif.Assert((im.nGet == 1) == want, "get-runs-iff-perm")
+	case 2:
+		s, _ := px.Fail(ctx)
+		want := contains(eff, "admin")
+		verif.Assert(want == (s == "partial"), "fail-passthrough-iff-perm")
+	}
+	verif.Reach("proxy-shared-done")
+}
+
 // HarnessHasPerm: HasPerm == membership in the effective set, for arbitrary strings.
 func HarnessHasPerm() {
 	maxSet := verif.Bound("set", 3)
